@@ -406,7 +406,14 @@ func (b *Builder) structHash(t *types.Struct) (ret []byte, pkg string) {
 			name = "-"
 		}
 		ft, _ := b.TypeName(f.Type())
-		fmt.Fprintln(h, name, ft)
+		// Field tags are part of a struct type's identity (Go spec, "Type
+		// identity"): two structs that differ only in a tag must not share a
+		// descriptor name. Untagged fields keep their previous rendering.
+		if tag := t.Tag(i); tag != "" {
+			fmt.Fprintln(h, name, ft, strconv.Quote(tag))
+		} else {
+			fmt.Fprintln(h, name, ft)
+		}
 	}
 	ret = h.Sum(b.buf[:0])
 	return
